@@ -104,7 +104,25 @@ func c07random(rng *core.Rng, pfx string, maxLen int) []xMsg {
 			if rng.Intn(5) == 0 {
 				q += " /* " + strings.Repeat("large query text ", 250+rng.Intn(300)) + "*/" // a Parse of 4-9 KiB
 			}
-			h = append(h, xMsg{K: "parse", Name: name, Query: q, Prog: xProg(id, 3+rng.Intn(2)+10*rng.Intn(2))})
+			pm := xMsg{K: "parse", Name: name, Query: q, Prog: xProg(id, 3+rng.Intn(2)+10*rng.Intn(2))}
+			if rng.Intn(4) == 0 {
+				// the very text of an earlier (successful) Parse again, under the same or another name
+				var prev []xMsg
+				for _, m := range h {
+					if m.K == "parse" && m.Prog != nil && m.Prog.Err == nil && len(m.Prog.Stmts) == 1 {
+						prev = append(prev, m)
+					}
+				}
+				if len(prev) > 0 {
+					o := core.Pick(rng, prev)
+					if rng.Bool() {
+						pm.Name = o.Name
+						name = o.Name
+					}
+					pm.Query, pm.Prog = o.Query, o.Prog
+				}
+			}
+			h = append(h, pm)
 			defS[name] = true
 		case k < 47:
 			name, portal := pick(defS), core.Pick(rng, xNames)
